@@ -53,6 +53,10 @@ func crashEnum(c *vx.Ctx, report []string) {
 	bases = append(bases,
 		base{"mirror", nil, []string{"SME", "RP:ok", "SMN:h", "RP:ok", "SMN:h", "RP:ok", "SMN:h", "RP:ok"}},
 		base{"mirror", nil, []string{"SME", "PH:A", "RP:ok", "SMN:h", "PH:A", "V:p:0:A", "V:p:1:A", "RP:ok", "SMN:h", "RP:ok"}})
+	// ... and replays that meet votes for targets the replayed certificate does not name (a Byzantine nil precommit,
+	// split prevotes) which the node had persisted before.
+	bases = append(bases,
+		base{"mirror", nil, []string{"SME", "V:c:3:nil", "RP:ok", "SMN:h", "PH:A", "V:p:0:A", "V:p:3:nil", "V:c:3:nil", "RP:ok", "SMN:h", "V:c:3:B", "RP:ok"}})
 	mirrorDevs := []string{"5:-", "5:+V:c:3:nil", "17:+V:p:3:A@0,2", "9:+V:p:3:A:zerosig", "9:+PH:B", "20:+V:c:3:B", "24:+V:p:3:nil@0,1", "2:+V:c:h:A@1,0", "10:+RP:ok"}
 	nodeDevs := []string{"3:+V:c:3:nil", "9:+PH:B", "10:+V:p:3:A@0,2", "12:+V:p:3:A:zerosig", "18:+V:p:3:nil@0,1", "26:+RP:ok", "2:~SR:nil", "16:~SR:propose", "4:+V:c:oh:A@1,0"}
 	if !c.Quick() {
@@ -105,6 +109,13 @@ func crashEnum(c *vx.Ctx, report []string) {
 		// Map trace positions back to script positions: the crash is armed by a "Crash:k" event inserted
 		// immediately before the event it interrupts.
 		events := buildEvents(scriptOf(bases[i]), bases[i].devs)
+		if bases[i].exec == "mirror" {
+			// Clean stops: the process is stopped and restarted at every quiescent point of the history.
+			for pos := 1; pos <= len(events); pos++ {
+				hist := append(append(append([]string{}, events[:pos]...), "Restart", "SME"), events[pos:]...)
+				cases = append(cases, crashCase{i, vx.Job{Exec: "mirror", Hist: hist, Args: map[string]string{"props": props, "mode": "raw", "seed": "0", "ref": fmt.Sprint(i), "clean": "1"}}})
+			}
+		}
 		for pos := 0; pos < len(events) && pos+1 < len(ob.Writes); pos++ {
 			w := ob.Writes[pos+1] - ob.Writes[pos]
 			for k := 0; k < w; k++ {
